@@ -66,7 +66,7 @@ def int_table(path, name):
     m = re.search(re.escape(name) + r"\s*\[[^\]]*\]\s*=\s*\{(.*?)\};", s, re.S)
     if not m:
         raise V.BuildError("table %s not found in %s" % (name, path))
-    return [int(x, 0) for x in re.findall(r"-?(?:0[xX][0-9a-fA-F]+|\d+)", m.group(1))]
+    return [int(x, 0) for x in re.findall(r"-?(?:0[xX][0-9a-fA-F]+|\d+)(?=[uUlL]*\s*[,}\s]|[uUlL]*$)", m.group(1) + " ")]
 
 
 def coq_list(vals, per=16):
@@ -85,5 +85,8 @@ def regenerate():
          "From Coq Require Import ZArith List.", "Import ListNotations.", "Local Open Scope Z_scope.", ""]
     t.append("(* src/loaders/sample.c vdic_table *)")
     t.append("Definition vdic_table : list Z :=\n  %s." % coq_list(int_table("src/loaders/sample.c", "vdic_table")))
+    t.append("(* src/depackers/crc32.c *)")
+    t.append("Definition crc32_A_table : list Z :=\n  %s." % coq_list(int_table("src/depackers/crc32.c", "crc32_A_table"), 8))
+    t.append("Definition crc16_IBM_table : list Z :=\n  %s." % coq_list(int_table("src/depackers/crc32.c", "crc16_IBM_table"), 8))
     V.write_if_changed(os.path.join(V.COQ, "Generated", "Tables.v"), "\n".join(t) + "\n")
     return c
